@@ -57,7 +57,14 @@ def check_items(ctx, scs, label, chunk=1500):
             if exp == "unspec":
                 unspec += 1
                 continue
-            if item == "ignore":
+            if item == "ignore2":
+                want = ([exp[1]] if exp else []) + [("CTOR02",)]
+                decl_line = lineno.get("func %s() {}" % name, [0])[0]
+                got = marks.get(decl_line - 2, []) + marks.get(decl_line - 1, [])
+                ok = got == want
+                o = got
+                e = want
+            elif item == "ignore":
                 # the marker that starts on the comment's line (standalone comment before func G<n>)
                 want = [exp[1]] if exp else []
                 decl_line = lineno.get("func %s() {}" % name, [0])[0]
